@@ -10,8 +10,9 @@
    histories whose typed names satisfy `tn_wf` (authority non-empty, no '/' in namespace and name, name
    segments [A-Za-z][0-9A-Za-z_]* — outside it Go's TypedName.Parts panics with InvalidCharactersInName). *)
 From Coq Require Import NArith Bool List.
-From PcoreV Require Import Model.Base Model.Loader Model.LoaderSpec Model.LoaderAdd Model.LoaderCtx Proofs.LoaderNames Proofs.LoaderProofs
-  Proofs.LoaderCorollaries Proofs.LoaderAddProofs Proofs.LoaderAddScoped Proofs.LoaderAddCorollaries Proofs.LoaderCtxProofs Proofs.LoaderDeclProofs.
+From PcoreV Require Import Model.Base Model.Loader Model.LoaderSpec Model.LoaderAdd Model.LoaderCtx Model.LoaderSpecX Proofs.LoaderNames Proofs.LoaderProofs
+  Proofs.LoaderCorollaries Proofs.LoaderAddProofs Proofs.LoaderAddScoped Proofs.LoaderAddCorollaries Proofs.LoaderCtxProofs Proofs.LoaderDeclProofs
+  Proofs.LoaderXCorollaries Proofs.LoaderXCase.
 Import ListNotations.
 
 (* Refinement: for EVERY history of construct / define / load / load-entry / get-entry / has-entry / discover
@@ -499,3 +500,205 @@ Example C12_declare_nonvacuous :
   val_same t8 t10 || val_equals t8 t10 = false /\ val_same t8 t9 || val_equals t8 t9 = true /\
   compile_decl ex_auth [ex_set] = IAct (ASet HL (mkTn ex_auth ns_type s_foo) tfoo) :: removelast (compile ex_auth [ex_set]).
 Proof. vm_compute. repeat split; reflexivity. Qed.
+
+(* ---------------------------------------------------------------------------------------------- *)
+(* The corollaries over the FULL history language.  C12_redefine ... C12_lookup_not_discovered above speak about
+   histories of Model/Loader.v operations; the theorems below state the same clauses for every history of `xop` -
+   operations, px.AddTypes of object types and type sets (with the type-set loaders it makes), declarations - and, by
+   C12_ctx_fixed, for every such history through contexts.  The older ones are the special case `map XOp ops`
+   (C12_addtypes_embeds).  `xresult_after cfg xs x` is the result of x after the history xs.  Two clauses are also
+   proved in a sharper form that needs a side condition for type-set loaders, the boolean guard `not_relative`
+   (Model/LoaderSpecX.v): C12_full_stable_resolution_name and C12_full_discover_complete; C12_full_guard_needed shows
+   that both are false without it. *)
+
+(* write-once, the redefinition clause *)
+Theorem C12_full_redefine :
+  forall cfg xs l n v old, cfg_wf cfg = true -> forallb (xop_wf cfg) (xs ++ [XOp (ODefine l n v)]) = true ->
+    l < length (fst (xrun cfg xs)) ->
+    spec_own_binding (abs (fst (xrun cfg xs))) l (norm n) = Some old ->
+    abs (fst (xrun cfg (xs ++ [XOp (ODefine l n v)]))) = abs (fst (xrun cfg xs)) /\
+    xresult_after cfg xs (XOp (ODefine l n v)) =
+      XR (if val_same old v || val_equals old v then RDefined old
+          else if vty old && vty v then RErr ERedefineType else RErr ERedefine).
+Proof. exact xredefine. Qed.
+Print Assumptions C12_full_redefine.
+
+(* stable resolution: as long as no proper ancestor of the loader gains a binding - whatever else the history xs' does:
+   definitions, px.AddTypes, declarations through this or other loaders, new loaders - a name that resolved once
+   resolves to the same value *)
+Theorem C12_full_stable_resolution :
+  forall cfg xs xs' l n v, cfg_wf cfg = true -> forallb (xop_wf cfg) (xs ++ xs') = true -> op_wf (OLoad l n) = true ->
+    xresult_after cfg xs (XOp (OLoad l n)) = XR (RFound (Some v)) ->
+    (forall p, ancestor (abs (fst (xrun cfg xs))) l p ->
+       own_binds (abs (fst (xrun cfg (xs ++ xs')))) p = own_binds (abs (fst (xrun cfg xs))) p) ->
+    xresult_after cfg (xs ++ xs') (XOp (OLoad l n)) = XR (RFound (Some v)).
+Proof. exact xstable_resolution. Qed.
+Print Assumptions C12_full_stable_resolution.
+
+(* ... sharper: it is enough that no proper ancestor gains a binding OF THAT NAME, provided the name is not qualified by
+   the name of the type set of a type-set loader on the way (then the lookup goes on with the relative name, whose
+   bindings matter too) *)
+Theorem C12_full_stable_resolution_name :
+  forall cfg xs xs' l n v, cfg_wf cfg = true -> forallb (xop_wf cfg) (xs ++ xs') = true -> op_wf (OLoad l n) = true ->
+    xresult_after cfg xs (XOp (OLoad l n)) = XR (RFound (Some v)) ->
+    not_relative (abs (fst (xrun cfg xs))) l (norm n) = true ->
+    (forall p, ancestor (abs (fst (xrun cfg xs))) l p ->
+       assoc (map_key (norm n)) (own_binds (abs (fst (xrun cfg xs))) p) = None ->
+       assoc (map_key (norm n)) (own_binds (abs (fst (xrun cfg (xs ++ xs')))) p) = None) ->
+    xresult_after cfg (xs ++ xs') (XOp (OLoad l n)) = XR (RFound (Some v)).
+Proof. exact xstable_resolution_name. Qed.
+Print Assumptions C12_full_stable_resolution_name.
+
+(* misses are not sticky (the SetEntry route; the px.AddTypes route is C12_addtypes_miss_not_sticky, the declaration route
+   C12_declare_fresh) *)
+Theorem C12_full_miss_not_sticky :
+  forall cfg xs l n v, cfg_wf cfg = true -> forallb (xop_wf cfg) xs = true -> op_wf (OLoad l n) = true ->
+    tn_auth (norm n) = cfg_auth cfg ->
+    xresult_after cfg xs (XOp (OLoad l n)) = XR (RFound None) ->
+    xresult_after cfg (xs ++ [XOp (OLoad l n)]) (XOp (ODefine l n v)) = XR (RDefined v) /\
+    xresult_after cfg (xs ++ [XOp (OLoad l n); XOp (ODefine l n v)]) (XOp (OLoad l n)) = XR (RFound (Some v)).
+Proof. exact xmiss_not_sticky. Qed.
+Print Assumptions C12_full_miss_not_sticky.
+
+(* names differing only in letter case denote one entry, on every definition route: operations (op_case_variant),
+   px.AddTypes and declarations of types whose names - the names of the members of a type set included - differ in letter
+   case only (`xop_cv`; a type set itself keeps its name and keys, its type-set loader holds the set) have the same
+   effect and the same result in every state *)
+Theorem C12_full_case_insensitive :
+  forall cfg st x x', xop_cv x x' -> xstep cfg st x = xstep cfg st x'.
+Proof. exact xcase_insensitive. Qed.
+Print Assumptions C12_full_case_insensitive.
+
+(* discovery in the state after any history - through every loader, the type-set loaders px.AddTypes made included *)
+Theorem C12_full_discover_exact :
+  forall cfg xs l P ks, cfg_wf cfg = true -> forallb (xop_wf cfg) xs = true ->
+    discover (S l) (fst (xrun cfg xs)) l P = DNames ks ->
+    strictly_sorted ks /\ NoDup ks /\
+    (forall k, In k ks <-> exists tn, listed (abs (fst (xrun cfg xs))) l tn /\ map_key tn = k /\ P tn = true) /\
+    (forall k tn, In k ks -> tn_of_key k = Some tn -> tn_wf tn = true -> map_key tn = k ->
+       spec_has (abs (fst (xrun cfg xs))) l tn = true).
+Proof. exact xdiscover_exact. Qed.
+Print Assumptions C12_full_discover_exact.
+
+(* completeness along ANY chain of loaders, type-set loaders included: a (canonical, well-formed) name that resolves
+   through the loader and is not qualified by the name of a type set on the way is discovered when it satisfies the
+   predicate - for predicates that do not look at the letter case of the name (a type of a type set is listed under the
+   name the set gives it, `Car`, its map key is `car`); every predicate of the histories (`pred_eval`) is such a one *)
+Theorem C12_full_discover_complete :
+  forall cfg xs l P ks tn, cfg_wf cfg = true -> forallb (xop_wf cfg) xs = true ->
+    discover (S l) (fst (xrun cfg xs)) l P = DNames ks ->
+    not_relative (abs (fst (xrun cfg xs))) l tn = true ->
+    tn_of_key (map_key tn) = Some tn -> tn_wf tn = true ->
+    spec_has (abs (fst (xrun cfg xs))) l tn = true ->
+    (forall n n', tn_case_variant n n' = true -> P n = P n') -> P tn = true ->
+    In (map_key tn) ks.
+Proof. exact xdiscover_complete. Qed.
+Print Assumptions C12_full_discover_complete.
+
+Theorem C12_full_discover_complete_pred :
+  forall cfg xs l p ks tn, cfg_wf cfg = true -> forallb (xop_wf cfg) xs = true ->
+    xresult_after cfg xs (XOp (ODiscover l p)) = XR (RNames ks) ->
+    not_relative (abs (fst (xrun cfg xs))) l tn = true ->
+    tn_of_key (map_key tn) = Some tn -> tn_wf tn = true ->
+    spec_has (abs (fst (xrun cfg xs))) l tn = true -> pred_eval p tn = true ->
+    In (map_key tn) ks.
+Proof. exact xdiscover_complete_pred. Qed.
+Print Assumptions C12_full_discover_complete_pred.
+
+(* ... and along chains without type-set loaders for every predicate *)
+Theorem C12_full_discover_complete_plain :
+  forall cfg xs l P ks tn, cfg_wf cfg = true -> forallb (xop_wf cfg) xs = true ->
+    discover (S l) (fst (xrun cfg xs)) l P = DNames ks ->
+    plain_chain (abs (fst (xrun cfg xs))) l ->
+    tn_of_key (map_key tn) = Some tn -> tn_wf tn = true ->
+    spec_has (abs (fst (xrun cfg xs))) l tn = true -> P tn = true ->
+    In (map_key tn) ks.
+Proof. exact xdiscover_complete_plain. Qed.
+Print Assumptions C12_full_discover_complete_plain.
+
+(* no lookup changes any discovery *)
+Theorem C12_full_lookup_not_discovered :
+  forall cfg xs o l P, cfg_wf cfg = true -> forallb (xop_wf cfg) (xs ++ [XOp o]) = true ->
+    (match o with OLoad _ _ | OLoadEntry _ _ | OGetEntry _ _ | OHas _ _ | ODiscover _ _ => True | _ => False end) ->
+    discover (S l) (fst (xrun cfg (xs ++ [XOp o]))) l P = discover (S l) (fst (xrun cfg xs)) l P.
+Proof. exact xlookup_not_discovered. Qed.
+Print Assumptions C12_full_lookup_not_discovered.
+
+(* Non-vacuity: the history of C12_addtypes_nonvacuous (px.AddTypes of Foo {Zed, Sub {X}, Bus} through loader 2 of the
+   chain 1 <- 2 <- 3; it makes the type-set loaders 4 of Foo and 5 of Foo::Sub), continued by a declaration through
+   loader 3, a fork of 3 and px.AddTypes of the same set through the fork (type-set loaders 7 and 8).  The hypotheses of
+   the theorems hold on it: Foo::Bus resolves through 3 and no ancestor of 3 (2, 1) gains a binding; Zed resolves through
+   the type-set loader 4, is not qualified by `Foo` and is discovered; a declaration and a px.AddTypes in another letter
+   case. *)
+Definition ex_full : list xop := ex_xs ++ [XAddTypes 2 [ex_set]].
+Definition ex_more : list xop := [XDeclare 3 [MPlain s_T t8]; XOp (OFork 3); XAddTypes 6 [ex_set]].
+Definition n_zed := mkTn ex_auth ns_type [122;101;100]%N.
+Definition ex_set_lc : mtype :=
+  MSet s_foo tfoo
+    [([90;101;100]%N, MPlain [102;111;111;58;58;90;69;68]%N tzed);
+     ([83;117;98]%N, MSet s_foo_sub tsub [([88]%N, MObject [70;79;79;58;58;83;117;98;58;58;120]%N tsx (Some asx) (Some csx))]);
+     ([66;117;115]%N, MObject s_foo_bus tbus (Some abus) (Some cbus))].
+
+Example C12_full_nonvacuous :
+  cfg_wf ex_cfg = true /\ forallb (xop_wf ex_cfg) (ex_full ++ ex_more) = true /\
+  xouts ex_cfg (ex_full ++ ex_more) =
+    [XR (RNew 1); XR (RNew 2); XR (RNew 3); XR (RFound None); XR (RFound None); XA AOk; XA AOk; XR (RNew 6); XA AOk] /\
+  xresult_after ex_cfg ex_full (XOp (OLoad 3 n_bus)) = XR (RFound (Some tbus)) /\
+  (forall p, ancestor (abs (fst (xrun ex_cfg ex_full))) 3 p ->
+     own_binds (abs (fst (xrun ex_cfg (ex_full ++ ex_more)))) p = own_binds (abs (fst (xrun ex_cfg ex_full))) p) /\
+  not_relative (abs (fst (xrun ex_cfg ex_full))) 3 (norm n_bus) = true /\
+  xresult_after ex_cfg (ex_full ++ ex_more) (XOp (OLoad 3 n_bus)) = XR (RFound (Some tbus)) /\
+  xresult_after ex_cfg ex_full (XOp (ODiscover 4 (PNs ns_type))) =
+    XR (RNames [[114;47;116;121;112;101;47;98;117;115]%N; [114;47;116;121;112;101;47;102;111;111]%N;
+                [114;47;116;121;112;101;47;102;111;111;58;58;98;117;115]%N; [114;47;116;121;112;101;47;102;111;111;58;58;115;117;98]%N;
+                [114;47;116;121;112;101;47;102;111;111;58;58;115;117;98;58;58;120]%N; [114;47;116;121;112;101;47;102;111;111;58;58;122;101;100]%N;
+                [114;47;116;121;112;101;47;115;117;98]%N; [114;47;116;121;112;101;47;122;101;100]%N]) /\
+  not_relative (abs (fst (xrun ex_cfg ex_full))) 4 n_zed = true /\ spec_has (abs (fst (xrun ex_cfg ex_full))) 4 n_zed = true /\
+  tn_of_key (map_key n_zed) = Some n_zed /\ tn_wf n_zed = true /\ pred_eval (PNs ns_type) n_zed = true /\
+  xop_cv (XDeclare 2 [MPlain s_T t8]) (XDeclare 2 [MPlain s_t t8]) /\
+  xop_cv (XAddTypes 2 [ex_set]) (XAddTypes 2 [ex_set_lc]) /\
+  xstep ex_cfg (fst (xrun ex_cfg ex_xs)) (XAddTypes 2 [ex_set_lc]) = xstep ex_cfg (fst (xrun ex_cfg ex_xs)) (XAddTypes 2 [ex_set]).
+Proof.
+  assert (Hc : cfg_wf ex_cfg = true) by (vm_compute; reflexivity).
+  assert (Hw : forallb (xop_wf ex_cfg) ex_full = true) by (vm_compute; reflexivity).
+  split; [exact Hc|]. split; [vm_compute; reflexivity|]. split; [vm_compute; reflexivity|]. split; [vm_compute; reflexivity|].
+  split.
+  { intros p Hp. apply (ancestor_in_chain 4 _ 3 p (xreachable_tree _ _ Hc Hw) ltac:(repeat constructor)) in Hp.
+    vm_compute in Hp. destruct Hp as [<-|[<-|[]]]; vm_compute; reflexivity. }
+  repeat (split; [vm_compute; reflexivity|]).
+  split; [repeat constructor|]. split; [repeat constructor|].
+  vm_compute. reflexivity.
+Qed.
+
+(* The guard is needed.  Loaders 1 <- 2 <- 3 with 3 the type-set loader of Foo {Car}; `bar` is bound in 2, so Foo::Bar
+   resolves through 3 (as the relative name Bar).  (a) Loader 1 - an ancestor of 3 - then gains a binding of `bar`: no
+   ancestor has gained a binding of `foo::bar`, yet Foo::Bar resolves to another value.  (b) foo::bar resolves through 3,
+   is canonical and satisfies the predicate, yet Discover(3, all) does not list it. *)
+Definition n_bar := mkTn ex_auth ns_type [98;97;114]%N.
+Definition n_foobar := mkTn ex_auth ns_type [102;111;111;58;58;98;97;114]%N.
+Definition ex_g : list xop := [XOp ONewDep; XOp (ONewParented 1); XOp (ONewTypeSet 2 0); XOp (ODefine 2 n_bar v0)].
+
+Example C12_full_guard_needed :
+  cfg_wf ex_cfg = true /\ forallb (xop_wf ex_cfg) (ex_g ++ [XOp (ODefine 1 n_bar v1)]) = true /\
+  not_relative (abs (fst (xrun ex_cfg ex_g))) 3 (norm n_foobar) = false /\
+  (* (a) *)
+  xresult_after ex_cfg ex_g (XOp (OLoad 3 n_foobar)) = XR (RFound (Some v0)) /\
+  (forall p, ancestor (abs (fst (xrun ex_cfg ex_g))) 3 p ->
+     assoc (map_key (norm n_foobar)) (own_binds (abs (fst (xrun ex_cfg (ex_g ++ [XOp (ODefine 1 n_bar v1)])))) p) = None) /\
+  xresult_after ex_cfg (ex_g ++ [XOp (ODefine 1 n_bar v1)]) (XOp (OLoad 3 n_foobar)) = XR (RFound (Some v1)) /\
+  (* (b) *)
+  xresult_after ex_cfg ex_g (XOp (ODiscover 3 PAll)) =
+    XR (RNames [[114;47;116;121;112;101;47;98;97;114]%N; [114;47;116;121;112;101;47;99;97;114]%N]) /\
+  spec_has (abs (fst (xrun ex_cfg ex_g))) 3 n_foobar = true /\ tn_of_key (map_key n_foobar) = Some n_foobar /\
+  tn_wf n_foobar = true /\ pred_eval PAll n_foobar = true /\
+  ~ In (map_key n_foobar) [[114;47;116;121;112;101;47;98;97;114]%N; [114;47;116;121;112;101;47;99;97;114]%N].
+Proof.
+  assert (Hc : cfg_wf ex_cfg = true) by (vm_compute; reflexivity).
+  assert (Hw : forallb (xop_wf ex_cfg) ex_g = true) by (vm_compute; reflexivity).
+  split; [exact Hc|]. split; [vm_compute; reflexivity|]. split; [vm_compute; reflexivity|]. split; [vm_compute; reflexivity|].
+  split.
+  { intros p Hp. apply (ancestor_in_chain 4 _ 3 p (xreachable_tree _ _ Hc Hw) ltac:(repeat constructor)) in Hp.
+    vm_compute in Hp. destruct Hp as [<-|[<-|[]]]; vm_compute; reflexivity. }
+  repeat (split; [vm_compute; reflexivity|]).
+  vm_compute. intros H. repeat (destruct H as [H|H]; [discriminate H|]). exact H.
+Qed.
